@@ -823,6 +823,104 @@ def stdOracle (kinds : List ExtKind) (tape : Nat → Nat → Nat) : Oracle := fu
   | .errorf => [.int 1]
   | .other => []
 
+
+/-! ## Assembly routines as external calls
+
+  In the Go glue of the accelerated SM4 / GCM paths (SMGo/Gen/CTIRProgSM4.lean) the assembly routines are
+  external calls.  Their own instruction sequences and addresses are the subject of the certificates of
+  C09; here a routine is any function of the argument VALUES that returns, for each destination
+  argument, an array of the same length (and possibly an integer).  `sem name args j` gives the new
+  elements of the j-th destination (elements it does not give keep their old value; for
+  `j = outs.length` its first element is the integer result). -/
+
+structure AsmSpec where
+  outs : List Nat        -- destination arguments, in the order of the results
+  ret : Bool             -- an integer result follows
+  ptrs : List Nat        -- pointer arguments (arrays in the model)
+  slices : List Nat      -- slice arguments (arrays whose length is part of the frame)
+  header : Bool          -- reads nothing but its frame (a leaking call on public header fields)
+deriving Repr, Inhabited
+
+def fillFrom (dst : List Val) (l : List Int) : List Val :=
+  (List.range dst.length).map (fun i => Val.int (l.getD i (argInt dst i)))
+
+def asmOuts (sem : Nat → List Int) (args : List Val) : Nat → List Nat → List Val
+  | _, [] => []
+  | j, a :: as => Val.arr (fillFrom (argBytes args a) (sem j)) :: asmOuts sem args (j + 1) as
+
+def asmOracle (specs : List AsmSpec) (sem : Nat → List Val → Nat → List Int) : Oracle := fun name args =>
+  match specs[name]? with
+  | some sp =>
+    asmOuts (sem name args) args 0 sp.outs ++
+      (if sp.ret then [Val.int ((sem name args sp.outs.length).getD 0 0)] else [])
+  | none => []
+
+/-- the result arity of every external agrees with the declared labels -/
+def specsOk : List AsmSpec → List (List Label) → Bool
+  | [], [] => true
+  | sp :: sps, ls :: lss => (sp.outs.length + (if sp.ret then 1 else 0) == ls.length) && specsOk sps lss
+  | _, _ => false
+
+/-! ### The frame discipline (composition premise of the certificates of the routines)
+
+  Every call of a routine `.ext lhs name false args` is immediately preceded by the leaking record
+  `.ext [] frame true (.lit name :: fs)`, and every argument that is not a pointer is in `fs` (for a
+  slice argument: its length).  Since the record is a leaking call, the checker forces all of `fs` to be
+  public. -/
+
+def exprBeq : Expr → Expr → Bool
+  | .lit a, .lit b => a == b
+  | .glob a, .glob b => a == b
+  | .var a, .var b => a == b
+  | .idx a i, .idx b j => exprBeq a b && exprBeq i j
+  | .idxc a k, .idxc b l => exprBeq a b && k == l
+  | .len a, .len b => exprBeq a b
+  | .slice a l h, .slice b m k => exprBeq a b && exprBeq l m && exprBeq h k
+  | .mk n a, .mk m b => exprBeq n m && exprBeq a b
+  | .cat a c, .cat b d => exprBeq a b && exprBeq c d
+  | .cteq a c, .cteq b d => exprBeq a b && exprBeq c d
+  | .op1 o a, .op1 q b => decide (o = q) && exprBeq a b
+  | .op2 o a c, .op2 q b d => decide (o = q) && exprBeq a b && exprBeq c d
+  | .op3 o a c e, .op3 q b d f => decide (o = q) && exprBeq a b && exprBeq c d && exprBeq e f
+  | _, _ => false
+
+def frameArgsOk (sp : AsmSpec) (fs : List Expr) : Nat → List Expr → Bool
+  | _, [] => true
+  | i, a :: as =>
+    (if sp.ptrs.contains i then true
+     else if sp.slices.contains i then fs.any (exprBeq (.len a))
+     else fs.any (exprBeq a)) && frameArgsOk sp fs (i + 1) as
+
+def flatS : Stmt → List Stmt
+  | .seq a b => flatS a ++ flatS b
+  | s => [s]
+
+/-- in a statement list: every non-leaking routine call directly follows its frame record -/
+def framedList (specs : List AsmSpec) (frame : Nat) : Option Stmt → List Stmt → Bool
+  | _, [] => true
+  | prev, s :: ss =>
+    (match s with
+     | .ext _ name false args =>
+       (match prev, specs[name]? with
+        | some (.ext [] f true (.lit n :: fs)), some sp =>
+          f == frame && n == Int.ofNat name && frameArgsOk sp fs 0 args
+        | _, _ => false)
+     | _ => true) && framedList specs frame (some s) ss
+
+def framedS (specs : List AsmSpec) (frame : Nat) (fuel : Nat) (s : Stmt) : Bool :=
+  match fuel with
+  | 0 => false
+  | fuel + 1 =>
+    let l := flatS s
+    framedList specs frame none l &&
+    l.all (fun t => match t with
+      | .ite _ a b => framedS specs frame fuel a && framedS specs frame fuel b
+      | .loop _ a b => framedS specs frame fuel a && framedS specs frame fuel b
+      | _ => true)
+
+def framed (P : Prog) (specs : List AsmSpec) (frame : Nat) : Bool :=
+  P.all (fun fn => framedS specs frame 64 fn.body)
+
 /-! ### Trace digest (driver, negative witnesses) -/
 
 mutual
